@@ -96,7 +96,7 @@ def orbit_events(g, n, rng, quick):
     if nx.is_connected(g) and n >= 2:
         rec("depth_first_orbit", lambda: rm.depth_first_orbit(g.copy()), distinct=False)
     degs = sorted(d for _, d in g.degree())
-    if n >= 2 and g.number_of_edges() == n - 1 and max(degs) <= 2 and nx.is_connected(g) and list(g.edges()) == [(i, i + 1) for i in range(n - 1)]:
+    if n >= 3 and g.number_of_edges() == n - 1 and max(degs) == 2 and nx.is_connected(g) and list(g.edges()) == [(i, i + 1) for i in range(n - 1)]:
         rec("linear_partial_orbit", lambda: rm.linear_partial_orbit(g.copy()), distinct=False)
     return evs
 
